@@ -145,6 +145,8 @@ SendLine(s, t, v, a, x, n) ==
         /\ \/ r.h.v \in OvertakenVerbs /\ v \in OvertakingVerbs
            \/ r.h.v = "pass" /\ v = "user"      \* USER again while the password is still being checked (a user manager that awaits)
            \/ r.h.v = "user" /\ v \in {"user", "pwd", "type", "syst"}   \* ... or while the account is still being looked up
+           \/ r.h.v \in {"pasv", "epsv"} /\ v \in {"pasv", "epsv"}      \* a second passive command while the listener is being opened:
+                                                                      \* it waits for that listener (one per session)
         \* USER forgets the previous login when its handler starts, not when it answers: a pending USER has done so already,
         \* an overtaking one has or has not by the time the overtaken handler resumes
         /\ \E early \in (IF r.h.v = "user" THEN {TRUE} ELSE IF v = "user" THEN BOOLEAN ELSE {FALSE}) :
@@ -505,7 +507,7 @@ FsFile(s, t, op, p, res, mode, off, data) ==
 \* passive listener start-up: take a port, bind, settle
 LsnTry(s, t, port) ==
   LET r == ss[s] IN
-  /\ r.ph = "open" /\ r.h.v \in {"pasv", "epsv"} /\ r.logged /\ r.lsn = 0 /\ r.h.pc \in {"", "retry"} /\ At(t)
+  /\ r.ph \in {"open", "drain"} /\ r.h.v \in {"pasv", "epsv"} /\ r.logged /\ r.lsn = 0 /\ r.h.pc \in {"", "retry"} /\ At(t)
   /\ (r.h.v = "epsv" => r.h.x = "")
   /\ IF UsePool
        THEN \E e \in pool : /\ e[2] = port /\ port \notin r.h.viewed
@@ -517,13 +519,13 @@ LsnTry(s, t, port) ==
 
 LsnBound(s, t, port) ==
   LET r == ss[s] IN
-  /\ r.ph = "open" /\ r.h.pc = "try" /\ (UsePool => port = r.h.port) /\ At(t)
+  /\ r.ph \in {"open", "drain"} /\ r.h.pc = "try" /\ (UsePool => port = r.h.port) /\ At(t)
   /\ Upd(s, [r EXCEPT !.h.pc = "bound", !.h.port = port])
   /\ UNCHANGED <<tree, uused, used, pool, table, srv>>
 
 LsnFail(s, t, port, why) ==
   LET r == ss[s] IN
-  /\ r.ph = "open" /\ r.h.pc = "try" /\ At(t)
+  /\ r.ph \in {"open", "drain"} /\ r.h.pc = "try" /\ At(t)
   /\ IF UsePool THEN port = r.h.port /\ pool' = pool \cup {<<r.h.prio + 1, port>>} ELSE UNCHANGED pool
   /\ IF why = "inuse" /\ UsePool
        THEN Upd(s, [r EXCEPT !.h.pc = "retry", !.h.port = 0])
